@@ -1,6 +1,7 @@
 pub mod adversarial;
 pub mod c02;
 pub mod c03;
+pub mod c04;
 pub mod c08;
 pub mod explore;
 pub mod honest;
@@ -12,6 +13,7 @@ pub fn all() -> Vec<Box<dyn Check>> {
         Box::new(honest::C01),
         Box::new(c02::C02),
         Box::new(c03::C03),
+        Box::new(c04::C04),
         Box::new(explore::C05),
         Box::new(c08::C08),
         Box::new(explore::C09),
